@@ -97,7 +97,7 @@ def coq_spec_check(pid, cases):
                               {"kind": "oracle-coq-spec", "cases": [c.to_json()], "step": fd}))
     return viols, {"coq_spec_cases": len(sel)}
 
-FLOAT_TIE = {"C01": 60, "C07": 60, "C14": 60, "C15": 60, "C16": 150, "C17": 60, "C02": 40, "C05": 40}
+FLOAT_TIE = {"C01": 60, "C07": 60, "C14": 60, "C15": 60, "C16": 150, "C17": 120, "C02": 40, "C05": 40}
 def float_tie(pid):
     """model@float (Coq primitive binary64) against the implementation at f64 (release build), bit for bit, on fresh cases"""
     count = FLOAT_TIE.get(pid, 0) * (1 if _SEED[1] == "quick" else 4)
@@ -139,6 +139,12 @@ def float_tie(pid):
 
 def finish(pid, tag, cases, oracle_viols, rule, extra=None):
     cv, st = corr_violations(pid, tag, cases)
+    if pid in ("C01", "C08", "C15", "C17", "C18"):
+        new, gone = catalogue_gaps()
+        st["catalogue"] = {"views_in_repo_not_modelled": new, "modelled_views_not_in_repo": gone}
+        if new or gone:
+            cv = cv + [("catalogue", "the set of public views of /repo differs from the modelled catalogue (not modelled: %s; modelled but gone: %s): %s quantifies over every view and is no longer shown for them"
+                        % (new, gone, pid), {"kind": "catalogue", "not_modelled": new, "gone": gone, "no_failing_input": True})]
     fv, fst = float_tie(pid)
     cv = cv + fv
     st.update(fst)
@@ -148,9 +154,15 @@ def finish(pid, tag, cases, oracle_viols, rule, extra=None):
         keys = {v[0] for v in viols}
         viols += [v for v in sv if v[0] not in keys]
         st.update(sst)
-    if oracle_viols:
-        # a concrete failing input exists: the correspondence failure (if any) is explained by it
-        viols += []
+    known = set()
+    kf = os.path.join(ROOT, "known_findings.txt")
+    if os.path.exists(kf):
+        for line in open(kf):
+            if line.startswith("known:") and ("property=%s " % pid) in line:
+                known.add(line.split()[2].split("=")[1])
+    if any(v[0] not in known for v in viols):
+        # a concrete failing input outside the known findings exists: a correspondence failure (if any) is explained by it
+        pass
     else:
         viols += cv
     cov = summarize(cases, rule, extra)
@@ -700,7 +712,8 @@ def run_C12(rng, tier):
         pair("affine", d, xs, [a * x + b for x in xs], (a, b))
         d = mk_view(rng, SCALE_INV[i % len(SCALE_INV)])
         xs = stream(d)
-        pair("scale_inv", d, xs, [a * x for x in xs], (a, 0))
+        a2 = a * rng.choice([1, 1, F(1, 2 ** 60), F(1, 10 ** 9)]) if d[0] in ("Rsi", "MyRsi", "Lrsi", "Roc", "Cog") else a
+        pair("scale_inv", d, xs, [a2 * x for x in xs], (a2, 0))
         d = mk_view(rng, SCALE_EQ[i % len(SCALE_EQ)])
         xs = stream(d)
         pair("scale_eq", d, xs, [a * x for x in xs], (a, 0))
@@ -724,11 +737,11 @@ def run_C12(rng, tier):
     viols = O.c12(groups)
     # f64, a = 2^k: bit-exact (the property's power-of-two clause); searched on the implementation, not proved
     fpairs = []
-    for i in range(36 * k):
+    for i in range(64 * k):
         inv = i % 2 == 0
         name = (AFFINE_INV + SCALE_INV)[(i // 2) % len(AFFINE_INV + SCALE_INV)] if inv else SCALE_EQ[(i // 2) % len(SCALE_EQ)]
         d = mk_view(rng, name)
-        kk = rng.choice([-40, -30, 20, -50])
+        kk = rng.choice([-60, -70, 30, -50])
         a = F(2) ** kk
         _, xs = gen_stream(rng, 40, positive=needs_positive(d), grid=rng.choice([10, 7, 3]))
         c1 = Case.simple(d, xs, {"view": name, "regime": "base", "model": False, "mode": "f64"})
@@ -796,7 +809,7 @@ def run_C15(rng, tier):
 def run_C17(rng, tier):
     k = scale(tier)
     cases, lineages = [], []
-    for i in range(70 * k):
+    for i in range(4 * len(ALL_UNARY) * k):
         name = ALL_UNARY[i % len(ALL_UNARY)]
         pos = name in POSITIVE_ONLY
         inner = rng.choice([E, E] + (INNERS_POS if pos else INNERS))
@@ -804,7 +817,7 @@ def run_C17(rng, tier):
         if i % 7 == 0:
             d = rng.choice(["Sub", "Mul"]), d, ("Sma", 2, E)
         heavy = is_heavy(d)
-        steps = 10 if heavy else 22
+        steps = 10 if heavy else 30
         ops, lin = [], [[]]
         twin = rng.chance(0.3)
         if twin:
